@@ -358,25 +358,43 @@ def run(ctx: Ctx, replay: str | None) -> None:
 
     # ---- (a) model check + scenario export
     import torchjd  # noqa: F401  (imported before the replay workers are forked)
-    cfg = open(run_tlc.__globals__["SPEC_DIR"] / ("MC_LeafWalk_quick.cfg" if quick else "MC_LeafWalk_thorough.cfg")).read()
-    mod = 2 if quick else 4
-    cfg = cfg.replace("SampleMod = 1", f"SampleMod = {mod}").replace("SamplePick = 0", f"SamplePick = {ctx.seed % mod}")
-    res = run_tlc("LeafWalk", cfg_text=cfg, workers="auto", seed=ctx.seed, timeout=3000, coverage=False)
-    ctx.add_tlc(res)
-    if res.violated:
-        raise MachineryError(f"LeafWalk.tla: {res.violated} violated in the model\n{res.cex[:2500]}")
-    scns = res.prints.get("SCN", [])
+    from concurrent.futures import ThreadPoolExecutor
+    spec = run_tlc.__globals__["SPEC_DIR"]
+
+    def cfg_of(name: str, mod: int) -> str:
+        return (open(spec / name).read().replace("SampleMod = 1", f"SampleMod = {mod}")
+                .replace("SamplePick = 0", f"SamplePick = {ctx.seed % mod}"))
+    live_cfg = open(spec / "MC_LeafWalk_live.cfg").read()
+    if quick:
+        plan = [("MC_LeafWalk_quick.cfg", 2, 12)]
+    else:
+        plan = [("MC_LeafWalk_quick.cfg", 1, 4), ("MC_LeafWalk_thorough.cfg", 16, 11)]
+        live_cfg = live_cfg.replace("MaxN = 3", "MaxN = 4")
+    with ThreadPoolExecutor(3) as ex:
+        futs = [ex.submit(run_tlc, "LeafWalk", cfg_text=cfg_of(n, m), workers=w, seed=ctx.seed, timeout=3000)
+                for n, m, w in plan]
+        # liveness (fair behaviours): every started invocation of the helper ends
+        f_live = ex.submit(run_tlc, "LeafWalk", cfg_text=live_cfg, workers=2, seed=ctx.seed, timeout=3000)
+        runs = [f.result() for f in futs]
+        live = f_live.result()
+    scns, seen = [], set()
+    for res in runs + [live]:
+        ctx.add_tlc(res)
+        if res.violated:
+            raise MachineryError(f"LeafWalk.tla: {res.violated} violated in the model ({res.config})\n{res.cex[:2500]}")
+    for res in runs:
+        for s in res.prints.get("SCN", []):
+            key = json.dumps(s, sort_keys=True)
+            if key not in seen:
+                seen.add(key)
+                scns.append(s)
     if len(scns) < 500:
         raise MachineryError(f"only {len(scns)} scenarios exported")
-    # liveness on the smaller universe (fair behaviours): every chosen call ends
-    live = run_tlc("LeafWalk", "MC_LeafWalk_live.cfg", workers="auto", seed=ctx.seed, timeout=1200)
-    ctx.add_tlc(live)
-    if live.violated:
-        raise MachineryError(f"LeafWalk.tla: liveness {live.violated} violated\n{live.cex[:2500]}")
-    ctx.exhaustive = False
+    ctx.exhaustive = not quick
     ctx.extra["scenarios_exported"] = len(scns)
     ctx.extra["model_exhaustive"] = True
-    ctx.extra["replayed_fraction_of_scenarios"] = f"1/{mod} (content hash, rotates with the seed)"
+    ctx.extra["replayed"] = ("1/2 of the (program, call) pairs with <= 4 tensors (content hash, rotates with the seed)" if quick else
+                             "ALL (program, call) pairs with <= 4 tensors (the exhaustive family) + 1/16 of those with 5 tensors")
 
     # ---- (b) S -> C
     scns.sort(key=lambda s: json.dumps(s, sort_keys=True))
